@@ -839,3 +839,98 @@ func (c *Ctx) validResults(scope []*load.FuncInfo) {
 	c.Floor("C15.5-nilable-sources", nSrc, 10)
 	c.Floor("C15.5-reads-judged", nSink, 15)
 }
+
+// clonedMapsAreNotWrittenWhenNil: maps.Clone (like the other copy helpers that preserve nil) hands back nil for a nil map;
+// an entry stored into its result panics unless the result, or the map it was cloned from, is known not to be nil there.
+// (The hand-written copy loop these replace starts from make(...) and has no such case.) No instance on the pinned tree.
+func (c *Ctx) clonedMapsAreNotWrittenWhenNil(scope []*load.FuncInfo) {
+	const rule = "C15.5-nil-preserving-copy-is-not-written-to"
+	preserving := map[string]bool{"maps.Clone": true, "golang.org/x/exp/maps.Clone": true}
+	n := 0
+	for _, fi := range scope {
+		info := fi.Pkg.TypesInfo
+		type src struct {
+			v     types.Object
+			field string // "" for the variable itself, else the field of the literal the copy was put in
+			from  ast.Expr
+		}
+		var srcs []src
+		isClone := func(e ast.Expr) ast.Expr {
+			call, ok := ast.Unparen(e).(*ast.CallExpr)
+			if !ok || len(call.Args) != 1 {
+				return nil
+			}
+			if f := gf.StaticCallee(info, call); f != nil && preserving[f.Origin().FullName()] {
+				return call.Args[0]
+			}
+			return nil
+		}
+		ast.Inspect(fi.Decl.Body, func(x ast.Node) bool {
+			as, ok := x.(*ast.AssignStmt)
+			if !ok || len(as.Lhs) != len(as.Rhs) {
+				return true
+			}
+			for i, r := range as.Rhs {
+				id, ok := ast.Unparen(as.Lhs[i]).(*ast.Ident)
+				if !ok || info.ObjectOf(id) == nil {
+					continue
+				}
+				if from := isClone(r); from != nil {
+					srcs = append(srcs, src{info.ObjectOf(id), "", from})
+					continue
+				}
+				// a literal (possibly behind &) one of whose fields, at any depth, is such a copy
+				ast.Inspect(r, func(y ast.Node) bool {
+					if kv, ok := y.(*ast.KeyValueExpr); ok {
+						if k, ok := kv.Key.(*ast.Ident); ok {
+							if from := isClone(kv.Value); from != nil {
+								srcs = append(srcs, src{info.ObjectOf(id), k.Name, from})
+							}
+						}
+					}
+					return true
+				})
+			}
+			return true
+		})
+		if len(srcs) == 0 {
+			continue
+		}
+		fn, an := c.Analysis(fi)
+		for _, s := range srcs {
+			ast.Inspect(fi.Decl.Body, func(x ast.Node) bool {
+				as, ok := x.(*ast.AssignStmt)
+				if !ok {
+					return true
+				}
+				for _, l := range as.Lhs {
+					ix, ok := ast.Unparen(l).(*ast.IndexExpr)
+					if !ok {
+						continue
+					}
+					base := ast.Unparen(ix.X)
+					match := false
+					if id, ok := base.(*ast.Ident); ok && s.field == "" && info.ObjectOf(id) == s.v {
+						match = true
+					}
+					if sel, ok := base.(*ast.SelectorExpr); ok && s.field != "" && sel.Sel.Name == s.field {
+						if r := rootIdent(sel.X); r != nil && info.ObjectOf(r) == s.v {
+							match = true
+						}
+					}
+					if !match {
+						continue
+					}
+					n++
+					st := an.StateBefore(as)
+					g1, _ := st.Implies(gf.FNotNil(fn.Term(base)))
+					g2, _ := st.Implies(gf.FNotNil(fn.Term(s.from)))
+					c.Check(g1 || g2, rule, fmt.Sprintf("%s: %s", tableShort(c, fi), types.ExprString(l)), as.Pos(), "the map (or the one it was cloned from) is known not to be nil here",
+						types.ExprString(base)+" is the nil-preserving copy of "+types.ExprString(s.from)+", which may be nil (an omitted optional field): storing an entry into it panics, in every reconcile of such a set")
+				}
+				return true
+			})
+		}
+	}
+	c.Notes = append(c.Notes, fmt.Sprintf("%s: %d stores into nil-preserving copies", rule, n))
+}
